@@ -48,7 +48,7 @@ def _stress(ctx):
     return out
 
 
-EXTRA = {"C09": _lin, "C03": _stress, "C08": _stress}
+EXTRA = {"C09": _lin, "C03": _stress, "C08": _stress, "C04": _stress}
 
 
 def replay(ctx, path):
